@@ -11,7 +11,8 @@ DECIDES = ('For three duration configurations (equal, stop > reset, reset > stop
            '(b) phy_reset is exactly "FSM in the reset state", phy_stop exactly "not in the idle state"; (c) the reset '
            'state leaves only under its comparison to the stop state, the stop state only under its comparison to idle, '
            'both clearing the counter there and counting up by one otherwise; idle clears the counter and leaves only '
-           'on trigger; initial state follows power_on_reset; the counter is reset with its clock domain, to 0. ')
+           'on trigger; initial state follows power_on_reset; the counter is reset with its clock domain, to 0. '
+           'phy_reset may be the state decode or a register mirroring one state (set on every edge into it, cleared on every edge out, initial value following the FSM initial state); decided for power_on_reset True and False. ')
 NOT_DECIDED = 'nothing of the controller beyond cycle-exact counting semantics of Amaranth arithmetic.'
 
 import math
